@@ -257,8 +257,24 @@ def run(ctx) -> dict:
     r1 = zero_strip_rule(ctx, 'R17.1', json_scope, counts)
     if not r1.instances:
         raise AnalysisError('R17.1: no trailing-zero strip located in the JSON/serialization code')
+    # the JSON/serialization functions are pure functions of their arguments: no store on the
+    # function token (R05.1 restricted to them) and no process-wide state in the serializer
+    from .c05_purity import r05_1
+    from .c19_global import r19_5
+    json_funcs: set[str] = set()
+    for rec in ctx.reg.all_records():
+        if rec.symbol in ('serialize', 'parse-json', 'json-doc', 'xml-to-json', 'json-to-xml'):
+            for slot in ('evaluate', 'select'):
+                ref = rec.method(slot)
+                if ref is not None and ref.func is not None and ref.origin != 'class':
+                    json_funcs.add(ref.func.key)
+    if len(json_funcs) < 4:
+        raise AnalysisError(f'only {len(json_funcs)} JSON/serialization functions located')
+    pure = r05_1(ctx, counts, only=json_funcs, rule='R05.1')
+    state = r19_5(ctx, counts, lambda f: f.module.name == 'elementpath.serialization', 0)
     return {
-        'results': [r1, r17_2(ctx, counts), r17_3(ctx, counts), r17_4(ctx, counts)] + _shared(ctx, counts),
+        'results': [r1, r17_2(ctx, counts), r17_3(ctx, counts), r17_4(ctx, counts), pure, state]
+        + _shared(ctx, counts),
         'counts': counts,
         'explanation':
             'Three necessary conditions of "xml-to-json(json-to-xml(t)) denotes the same JSON '
